@@ -104,6 +104,17 @@ BackendBreak(t) == /\ AllowQuit /\ pc[t] = "wait" /\ alive /\ fb # "run"
                    /\ pc' = [pc EXCEPT ![t] = "reset"]
                    /\ Log("x", t) /\ UNCHANGED <<prog, inflight, live, fb, fbs, fj>>
 
+\* the destination accepts while the backend the player is on closes that connection by itself:
+\* its teardown in the proxy overlaps the switch.  Same outcome as Backend(t) with "accept".
+BackendOldDrop(t) == /\ AllowQuit /\ pc[t] = "wait" /\ alive /\ fb # "run" /\ cur # "none"
+                     /\ prog[t].beh = "accept"
+                     /\ cur' = prog[t].s
+                     /\ inflight' = IF inflight = t THEN "none" ELSE inflight
+                     /\ live' = live \ {t}
+                     /\ out' = [out EXCEPT ![t] = "success"]
+                     /\ pc' = [pc EXCEPT ![t] = "reset"]
+                     /\ Log("o", t) /\ UNCHANGED <<prog, alive, fb, fbs, fj>>
+
 \* err != nil (refuse, hang) skips connect()'s clear; a disconnect result runs it
 NeedsClear(t) == \/ (prog[t].api = "connect" /\ out[t] = "fail" /\ prog[t].beh \in {"kicklogin", "kickmid"})
                  \/ (prog[t].api = "indication" /\ out[t] = "fail")
@@ -165,7 +176,7 @@ FjInstall == /\ fj \in {"acked", "early"} /\ fj' = IF fj = "early" THEN "lost" E
 FjJoin == fj = "installed" /\ fj' = "joined" /\ h' = Append(h, [k |-> "first", t |-> "joingame"]) /\ FjVars
 First == FjAck \/ FjEarly \/ FjInstall \/ FjJoin
 
-Next == First \/ Kick \/ Quit \/ Fallback \/ \E t \in Threads : Check(t) \/ Set(t) \/ Dial(t) \/ Backend(t) \/ BackendBreak(t) \/ Reset(t) \/ Clear(t)
+Next == First \/ Kick \/ Quit \/ Fallback \/ \E t \in Threads : Check(t) \/ Set(t) \/ Dial(t) \/ Backend(t) \/ BackendBreak(t) \/ BackendOldDrop(t) \/ Reset(t) \/ Clear(t)
 Spec == Init /\ [][Next]_vars
 
 ----------------------------------------------------------------------------
